@@ -488,6 +488,16 @@ func (e *e2) instr(f *ssa.Function, in ssa.Instruction) {
 			switch a := x.X.(type) {
 			case *ssa.Global:
 				e.set(x, e.globalTok(a))
+			case *ssa.Alloc:
+				// a local variable that lives in a cell because a function literal reads it: in the function that
+				// owns it, a load sees the stores that reach it (the literals only read), not every store ever made
+				if sts, ok := reachingStores(x, a); ok {
+					for _, st := range sts {
+						e.set(x, e.get(st.Val))
+					}
+				} else {
+					e.set(x, e.get(x.X))
+				}
 			default:
 				e.set(x, e.get(x.X))
 			}
@@ -800,4 +810,76 @@ func describeTokens(t tokset) string {
 		out = append(out, fmt.Sprintf("%s{%s}", r, string(ls)))
 	}
 	return strings.Join(out, ",")
+}
+
+// reachingStores: for a load of a scalar cell (an Alloc of a non-aggregate variable) in the function that owns the
+// cell, the stores to the cell that can reach the load. ok=false when the cell is written anywhere else (through a
+// function literal, through its address handed to a call) - the flow-insensitive reading applies then.
+func reachingStores(ld *ssa.UnOp, a *ssa.Alloc) ([]*ssa.Store, bool) {
+	if a.Parent() != ld.Parent() {
+		return nil, false
+	}
+	if pt, ok := a.Type().Underlying().(*types.Pointer); ok {
+		switch pt.Elem().Underlying().(type) {
+		case *types.Struct, *types.Array:
+			return nil, false
+		}
+	}
+	for _, r := range *a.Referrers() {
+		switch y := r.(type) {
+		case *ssa.Store:
+			if y.Addr != ssa.Value(a) {
+				return nil, false // the address itself is stored somewhere
+			}
+		case *ssa.UnOp, *ssa.DebugRef:
+		case *ssa.MakeClosure:
+			fn, ok := y.Fn.(*ssa.Function)
+			if !ok {
+				return nil, false
+			}
+			for i, b := range y.Bindings {
+				if b != ssa.Value(a) || i >= len(fn.FreeVars) {
+					continue
+				}
+				for _, fr := range *fn.FreeVars[i].Referrers() {
+					switch fr.(type) {
+					case *ssa.UnOp, *ssa.DebugRef:
+					default:
+						return nil, false // the literal writes the variable or passes its address on
+					}
+				}
+			}
+		default:
+			return nil, false
+		}
+	}
+	var out []*ssa.Store
+	seen := map[*ssa.BasicBlock]bool{}
+	var scan func(b *ssa.BasicBlock, from int)
+	scan = func(b *ssa.BasicBlock, from int) {
+		for i := from; i >= 0; i-- {
+			if st, ok := b.Instrs[i].(*ssa.Store); ok && st.Addr == ssa.Value(a) {
+				out = append(out, st)
+				return
+			}
+		}
+		for _, p := range b.Preds {
+			if !seen[p] {
+				seen[p] = true
+				scan(p, len(p.Instrs)-1)
+			}
+		}
+	}
+	blk := ld.Block()
+	at := -1
+	for i, in := range blk.Instrs {
+		if in == ssa.Instruction(ld) {
+			at = i
+		}
+	}
+	if at < 0 {
+		return nil, false
+	}
+	scan(blk, at-1)
+	return out, true
 }
